@@ -17,6 +17,24 @@ TIGHT = dict(tol_p=1e-10, tol_m=1e-10, tol_res=1e-9, iter=100, max_iter_colebroo
 G, PN, TN, RT = 9.81, 1.01325, 273.15, 1e-6
 
 
+def vary_temperatures(rng, spec, choices=(-8., -3., 0., 5., 20.)):
+    """per-junction fluid temperatures (the generator's nets are isothermal).  Ext grids get the temperature of their
+    junction: with t_k != tfluid_k the junction node takes t_k but the outlet temperature of the pipes ending there
+    (TOUTINIT) keeps tfluid_k in a hydraulic run - an input inconsistency this monitor does not want to depend on."""
+    import copy
+    spec = copy.deepcopy(spec)
+    tj = {}
+    for fn, kw in spec["ops"]:
+        if fn == "create_junction":
+            kw["tfluid_k"] = kw["tfluid_k"] + rng.choice(choices)
+            tj[kw["index"]] = kw["tfluid_k"]
+    for fn, kw in spec["ops"]:
+        if fn == "create_ext_grid" and kw.get("junction") in tj:
+            kw["t_k"] = tj[kw["junction"]]
+    spec["nonuniform_t"] = True
+    return spec
+
+
 def p_air(h):
     return 1.01325 * (1 - h * 0.0065 / 288.15) ** 5.255
 
@@ -32,6 +50,17 @@ def lam_swamee(re, k, d):
 
 def colebrook_residual(lam, re, k, d):
     return 1 / math.sqrt(lam) + 2 * math.log10(2.51 / (re * math.sqrt(lam)) + k / (3.71 * d))
+
+
+def colebrook_root(re, k, d):
+    lam = 1 / (-2 * math.log10(k / (3.71 * d))) ** 2
+    for _ in range(60):
+        x = -2 * math.log10(2.51 / (re * math.sqrt(lam)) + k / (3.71 * d))
+        new = 1 / x ** 2
+        if abs(new - lam) < 1e-15:
+            break
+        lam = new
+    return lam
 
 
 def close(a, b, scale=0.0, rt=RT, at=1e-7):
@@ -62,8 +91,9 @@ def sections_of(net, tbl, idx):
         ps += internal_pressures(net, idx, n)
     ps.append(float(res["p_to_bar"]))
     hs = [hf + (ht - hf) * i / n for i in range(n + 1)]
-    tf_, tt_ = float(net.junction.at[fj, "tfluid_k"]), float(net.junction.at[tj, "tfluid_k"])
-    ts = [tf_ + (tt_ - tf_) * i / n for i in range(n + 1)]       # hydraulics mode: node temperatures = tfluid_k
+    tf_, tt_ = float(net.res_junction.at[fj, "t_k"]), float(net.res_junction.at[tj, "t_k"])
+    ts = [tf_ + (tt_ - tf_) * i / n for i in range(n + 1)]       # reported junction temperatures (an ext grid fixes
+    #                                                              its junction to t_k); internal nodes: linear
     out = []
     for i in range(n):
         out.append({"tbl": tbl, "idx": int(idx), "section": i, "p_i": ps[i] + p_air(hs[i]), "p_i1": ps[i + 1] + p_air(hs[i + 1]),
@@ -97,6 +127,7 @@ def check_net(net, friction_model):
     fluid = net.fluid
     gas = fluid.is_gas
     bad, n_chk, n_flow = [], 0, 0
+    means = {}
     rho_n = float(fluid.get_density(TN))
     for tbl in ("pipe", "valve", "heat_exchanger"):
         if tbl not in net or not len(net[tbl]) or "res_" + tbl not in net:
@@ -104,6 +135,7 @@ def check_net(net, friction_model):
         for idx in net[tbl].index:
             for s in sections_of(net, tbl, idx):
                 n_chk += 1
+                own_cb = False
                 a = s["d"] ** 2 * math.pi / 4
                 t = (s["t_i"] + s["t_i1"]) / 2                   # get_branch_real_eta / compressibility: mean temperature
                 m = s["m"]
@@ -120,23 +152,25 @@ def check_net(net, friction_model):
                     lam = lam_nikuradse(re, s["k"], s["d"], gas)
                 elif friction_model == "swamee-jain":
                     lam = lam_swamee(re, s["k"], s["d"]) if re > 0 else 0.
+                elif s["n"] > 1 and s["t_i"] != s["t_i1"]:
+                    lam = colebrook_root(re, s["k"], s["d"]) if re > 1e-3 else lam_nikuradse(max(re, 1e-300), s["k"], s["d"], gas)
+                    own_cb = True
                 else:
                     lam = s["lambda_rep"]
-                    if re > 1e-3 and s["n"] == 1 and abs(colebrook_residual(lam, re, s["k"], s["d"])) > 2e-2:
+                    if re > 10. and s["n"] == 1 and abs(colebrook_residual(lam, re, s["k"], s["d"])) > 2e-2:
                         bad.append(("colebrook: reported lambda does not satisfy the implicit equation", s,
                                     colebrook_residual(lam, re, s["k"], s["d"]), 0.))
-                if tbl == "pipe" and s["l"] > 0 and friction_model != "colebrook" and re > 1. and \
-                        not close(s["lambda_rep"], lam, rt=1e-5, at=0.):
-                    bad.append(("reported lambda != documented friction formula (%s)" % friction_model, s, s["lambda_rep"], lam))
-                if re > 1. and not math.isnan(s["re_rep"]) and not close(s["re_rep"] * eta * a, abs(m) * s["d"], rt=1e-6, at=1e-12):
-                    bad.append(("reported Reynolds number: Re*eta*A != |m|*D", s, s["re_rep"] * eta * a, abs(m) * s["d"]))
+                acc = means.setdefault((tbl, s["idx"]), {"s": s, "lam": [], "re": [], "isothermal": True})
+                acc["lam"].append(lam)
+                acc["re"].append(re)
+                acc["isothermal"] &= s["t_i"] == s["t_i1"]
                 fric = lam * s["l"] / s["d"] + s["zeta"]
                 if not gas:
                     rho = (float(fluid.get_density(s["t_i"])) + float(fluid.get_density(s["t_i1"]))) / 2
                     v = m / (rho * a)
                     lhs = (s["p_i1"] - s["p_i"]) * 1e5
                     rhs = rho * G * s["dh"] - fric * rho * v * abs(v) / 2
-                    if not close(lhs, rhs, at=1e-2):            # 1e-2 Pa = 1e-7 bar
+                    if not close(lhs, rhs, at=1e-2, rt=1e-3 if own_cb else RT):            # 1e-2 Pa = 1e-7 bar
                         bad.append(("liquid pressure-loss law (Darcy-Weisbach + hydrostatic + zeta)", s, lhs, rhs))
                     if s["n"] == 1 and not math.isnan(s["v_rep"]) and not close(s["v_rep"] * rho * a, m, rt=1e-9, at=1e-12):
                         bad.append(("reported velocity: v*rho*A != m", s, s["v_rep"] * rho * a, m))
@@ -147,9 +181,52 @@ def check_net(net, friction_model):
                     rho_r = _real_rho(fluid, rho_n, s["p_i"], s["p_i1"], s["t_i"], s["t_i1"])
                     lhs = (s["p_i"] - s["p_i1"]) * 1e5 * psum
                     rhs = fric * rho_n * v_n * abs(v_n) / 2 * (PN * 1e5) * t / TN * comp - rho_r * G * s["dh"] * psum
-                    if not close(lhs, rhs, at=1e-2 * psum):
+                    if not close(lhs, rhs, at=1e-2 * psum, rt=1e-3 if own_cb else RT):
                         bad.append(("gas pressure-loss law (integrated real-gas form)", s, lhs, rhs))
+    for (tbl, idx), acc in means.items():
+        s = acc["s"]
+        if tbl != "pipe" or s["l"] == 0:
+            continue
+        re_m, lam_m = sum(acc["re"]) / len(acc["re"]), sum(acc["lam"]) / len(acc["lam"])
+        if re_m > 1. and not math.isnan(s["re_rep"]) and not close(s["re_rep"], re_m, rt=1e-6, at=0.):
+            bad.append(("reported Reynolds number != mean over sections of |m| D / (eta A)", s, s["re_rep"], re_m))
+        if re_m > 1. and friction_model != "colebrook" and not close(s["lambda_rep"], lam_m, rt=1e-5, at=0.):
+            bad.append(("reported lambda != documented friction formula (%s), mean over sections" % friction_model, s,
+                        s["lambda_rep"], lam_m))
+    if gas and "pipe" in net and len(net.pipe):
+        bad += check_gas_ends(net, fluid, rho_n)
     return n_chk, n_flow, bad
+
+
+def check_gas_ends(net, fluid, rho_n):
+    """gas pipes: reported norm factors and end velocities follow from the REPORTED end pressures / temperatures:
+    normfactor = p_N T / (T_N p_abs) K(p_abs, T),  v_end = m / (rho_N A) * normfactor  (hydraulic run: no branch is
+    direction-switched, so 'from' is the from junction)"""
+    bad = []
+    res = net.res_pipe
+    for idx in net.pipe.index:
+        r, row = res.loc[idx], net.pipe.loc[idx]
+        if np.isnan(r["mdot_from_kg_per_s"]) or np.isnan(r["normfactor_from"]):
+            continue
+        a = (float(row["inner_diameter_mm"]) / 1000.) ** 2 * math.pi / 4
+        v_n = float(r["mdot_from_kg_per_s"]) / (rho_n * a)
+        for end, jcol in (("from", "from_junction"), ("to", "to_junction")):
+            h = float(net.junction.at[row[jcol], "height_m"])
+            p_abs = float(r["p_%s_bar" % end]) + p_air(h)
+            t = float(r["t_%s_k" % end])
+            if math.isnan(t):
+                t = float(net.res_junction.at[row[jcol], "t_k"])
+            kk = float(fluid.get_compressibility(p_abs, t)) if _comp2d(fluid) else float(fluid.get_compressibility(p_abs))
+            nf = PN * t / (TN * p_abs) * kk
+            s = {"tbl": "pipe", "idx": int(idx), "section": 0 if end == "from" else int(row["sections"]) - 1, "m": float(r["mdot_from_kg_per_s"]),
+                 "l": float(row["length_km"]) * 1000, "dh": 0., "zeta": 0., "end": end, "p_abs": p_abs, "t": t}
+            if not close(float(r["normfactor_" + end]), nf, rt=1e-9, at=0.):
+                bad.append(("reported norm factor: normfactor_%s != p_N T/(T_N p) K(p,T) at the %s junction" % (end, end), s,
+                            float(r["normfactor_" + end]), nf))
+            if not close(float(r["v_%s_m_per_s" % end]), v_n * nf, rt=1e-8, at=1e-12):
+                bad.append(("reported gas velocity: v_%s != m/(rho_N A) * normfactor_%s" % (end, end), s,
+                            float(r["v_%s_m_per_s" % end]), v_n * nf))
+    return bad
 
 
 def _takes_p(fluid):
